@@ -140,7 +140,7 @@ def r3_siblings(ctx, F):
         fs = F.find(pattern)
         if len(fs) != 1:
             raise_missing(pattern, fs)
-        return fs[0], calls_by_name(fs[0], callee_pattern)
+        return fs[0], calls_to(F, fs[0], callee_pattern)
 
     def raise_missing(p, fs):
         from facts import AnchorMissing
